@@ -36,10 +36,18 @@ for _k, (_base, _) in REFUSALS.items():
     KINDS[_k] = KINDS[_base]
 
 
+# Unix-domain-socket pools: only the checks that name them use them (they are not part of KINDS, which also drives the real-socket layers)
+UDS_KINDS = {
+    "uds-h1": ({"uds": "/run/sim.sock"}, "http", "http/1.1"),
+    "uds-tls-h1": ({"uds": "/run/sim.sock"}, "https", "http/1.1"),
+    "uds-tls-h2": ({"uds": "/run/sim.sock", "http2": True}, "https", "h2"),
+}
+
+
 def topo(kind, *, hosts=("a.test", "b.test", "c.test", "d.test"), plans=None, default_plan=None, proxy=None, socks=None, h2=None,
          pool_extra=None):
     """Return (pool_cfg, NetConfig, scheme). Origin endpoints for `hosts` are registered on ports 80/443/8080/8443."""
-    pool_cfg, scheme, alpn = KINDS[kind]
+    pool_cfg, scheme, alpn = KINDS[kind] if kind in KINDS else UDS_KINDS[kind]
     pool_cfg = dict(pool_cfg)
     if kind in REFUSALS:
         extra = REFUSALS[kind][1]
@@ -57,4 +65,4 @@ def topo(kind, *, hosts=("a.test", "b.test", "c.test", "d.test"), plans=None, de
 
 
 def is_h2(kind):
-    return KINDS[kind][2] == "h2"
+    return (KINDS[kind] if kind in KINDS else UDS_KINDS[kind])[2] == "h2"
